@@ -104,3 +104,69 @@ def short_meta(case):
     m = case["meta"]
     out = {k: v for k, v in m.items() if k not in ("expect", "sub", "blocks") and not isinstance(v, (bytes,))}
     return out
+
+# ------------------------------------------------------------------ corpora for the cross-cutting properties
+
+KINDS = ["cab", "cab", "cab", "chm", "chm", "szdd", "kwaj", "kwaj", "oab"]
+
+def valid_cases(rng, n, sizes=("small", "small", "small", "medium"), kinds=KINDS, **kw):
+    """n well-formed archives of mixed formats (vgen dicts)"""
+    for k in range(n):
+        kind = rng.choice(kinds)
+        try:
+            yield vgen_case(rng, kind, rng.choice(sizes), **(kw if kind == "cab" else {}))
+        except Exception as e:          # a generator hiccup must not take a check down
+            continue
+
+def malform(rng, case, count=4):
+    """mutated copies of a well-formed case: bit flips / byte sets (biased to the first 128 bytes and
+    to the first bytes after), truncations, a splice.  Returns list of (files dict, description)"""
+    out = []
+    names = list(case["files"].keys())
+    for _ in range(count):
+        files = dict(case["files"])
+        nm = rng.choice(names); b = bytearray(files[nm])
+        if not b:
+            continue
+        how = rng.choice(["flip", "flip", "set", "set", "trunc", "trunc", "splice", "zero-run", "ff-run"])
+        if how == "flip":
+            for _ in range(rng.choice([1, 1, 2, 5])):
+                p = rng.randrange(min(len(b), 128)) if rng.random() < 0.6 else rng.randrange(len(b))
+                b[p] ^= 1 << rng.randrange(8)
+        elif how == "set":
+            for _ in range(rng.choice([1, 1, 3])):
+                p = rng.randrange(min(len(b), 160)) if rng.random() < 0.7 else rng.randrange(len(b))
+                b[p] = rng.choice([0, 1, 0x7f, 0x80, 0xff, rng.randrange(256)])
+        elif how == "trunc":
+            b = b[:rng.randrange(len(b))]
+        elif how == "splice":
+            p = rng.randrange(len(b)); q = rng.randrange(len(b)); ln = rng.randrange(1, 64)
+            b[p:p + ln] = b[q:q + ln]
+        elif how == "zero-run":
+            p = rng.randrange(len(b)); b[p:p + rng.choice([2, 4, 8, 32])] = bytes(rng.choice([2, 4, 8, 32]))
+        else:
+            p = rng.randrange(len(b)); ln = rng.choice([2, 4, 8]); b[p:p + ln] = b"\xff" * ln
+        files[nm] = bytes(b)
+        out.append((files, how))
+    return out
+
+def fixture_files():
+    """(kind, path) of every archive shipped with the repository (incl. the crashers)"""
+    import glob
+    res = []
+    for p in sorted(glob.glob(os.path.join(C.REPO, "cabextract/test/cabs/*.cab")) + glob.glob(os.path.join(C.REPO, "cabextract/test/bugs/*.cab")) +
+                    glob.glob(os.path.join(C.REPO, "libmspack/test/test_files/cabd/*.cab"))):
+        if os.path.getsize(p) < 3_000_000: res.append(("cab", p))
+    for p in sorted(glob.glob(os.path.join(C.REPO, "libmspack/test/test_files/chmd/*.chm"))):
+        if os.path.getsize(p) < 3_000_000: res.append(("chm", p))
+    for p in sorted(glob.glob(os.path.join(C.REPO, "libmspack/test/test_files/kwajd/*.kwj"))):
+        res.append(("kwaj", p))
+    return res
+
+def fixture_ops(kind, path, nextract=6, params=()):
+    nm = "fx." + kind
+    lines = [f"fileref {nm} {path}", f"new {kind}"] + [f"param i0 {k} {v}" for k, v in params]
+    if kind in ("szdd", "kwaj"):
+        return lines + [f"open i0 {nm}", "extract i0 h0 - out", "close i0 h0", "destroy i0"]
+    lines += [f"open i0 {nm}"] + [f"extract i0 h0 {j} o{j}" for j in range(nextract)] + ["close i0 h0", "destroy i0"]
+    return lines
